@@ -113,3 +113,56 @@ WIDEN = _WidenCounter()
 _gl = logging.getLogger('graphtage')
 _gl.addHandler(WIDEN)
 _gl.propagate = False
+
+
+# -- deterministic loop budget ---------------------------------------------------------------------------------------
+# Every loop iteration in Python code ends in a backward jump; sys.monitoring (3.12+) reports JUMP events cheaply.
+# Counting the JUMP events that happen inside the repository's package gives a count-based (not wall-clock-based)
+# non-termination detector for every check: exceeding LOOP_BUDGET jumps inside graphtage during one case raises Bad.
+LOOP_BUDGET = int(os.environ.get('VERIF_LOOP_BUDGET', '20000000'))
+
+
+class _LoopBudget:
+    def __init__(self):
+        self.count = 0
+        self.limit = LOOP_BUDGET
+        self.tripped = False
+        self.installed = False
+        self.prefix = None
+
+    def reset(self, limit=None):
+        self.count = 0
+        self.tripped = False
+        self.limit = LOOP_BUDGET if limit is None else limit
+
+    def install(self):
+        if self.installed or not hasattr(sys, 'monitoring'):
+            return
+        from .core import REPO
+        self.prefix = os.path.join(REPO, 'graphtage') + os.sep
+        mon = sys.monitoring
+        tool = 4
+        try:
+            mon.use_tool_id(tool, 'vf-loop-budget')
+        except ValueError:
+            return
+        budget = self
+
+        def on_jump(code, offset, dest):
+            if not code.co_filename.startswith(budget.prefix):
+                return mon.DISABLE
+            budget.count += 1
+            if budget.count > budget.limit:
+                budget.tripped = True
+                from .core import Bad
+                raise Bad('nontermination:loop-budget',
+                          f"more than {budget.limit} loop iterations inside graphtage during one case "
+                          f"(last in {os.path.basename(code.co_filename)}:{code.co_name})")
+
+        mon.register_callback(tool, mon.events.JUMP, on_jump)
+        mon.set_events(tool, mon.events.JUMP)
+        self.installed = True
+
+
+LOOPS = _LoopBudget()
+LOOPS.install()
